@@ -430,11 +430,21 @@ class NetworkService(ModelElement):
         :param kwargs: typically labels and capacities to put on the interface facing the other service
         """
         assert(isinstance(ns, NetworkService))
-        self_iface = self.add_interface(name=self.name + '-' + ns.name, itype=InterfaceType.ServicePort, **kwargs)
-        other_iface = ns.add_interface(name=ns.name + '-' + self.name, itype=InterfaceType.ServicePort)
-        # link them together with L2Path
-        peer_link = Link(name=self_iface.name + '-link', topo=self.topo, etype=ElementType.NEW,
-                         interfaces=[self_iface, other_iface], ltype=LinkType.L2Path)
+        created = list()
+        try:
+            self_iface = self.add_interface(name=self.name + '-' + ns.name, itype=InterfaceType.ServicePort, **kwargs)
+            created.append((self, self_iface))
+            other_iface = ns.add_interface(name=ns.name + '-' + self.name, itype=InterfaceType.ServicePort)
+            created.append((ns, other_iface))
+            # link them together with L2Path
+            peer_link = Link(name=self_iface.name + '-link', topo=self.topo, etype=ElementType.NEW,
+                             interfaces=[self_iface, other_iface], ltype=LinkType.L2Path)
+        except Exception:
+            # a later step was rejected: do not leave service ports without a peer in the model
+            for owner, iface in created:
+                owner.topo.graph_model.remove_cp_and_links(node_id=iface.node_id)
+                owner._interfaces = list(filter((lambda x: x.node_id != iface.node_id), owner._interfaces))
+            raise
         # interface lists are updated by add_interface()
 
     def unpeer(self, ns) -> None:
